@@ -7,6 +7,9 @@ package c03
 import (
 	"context"
 	"fmt"
+	"os"
+	"os/exec"
+	"strings"
 	"time"
 
 	pb "github.com/AliceO2Group/Control/core/protos"
@@ -38,11 +41,22 @@ func teardownMain(args []string) {
 	hangs, fails := 0, 0
 	t0 := time.Now()
 	for i := 0; i < n; i++ {
-		c, cancel := context.WithTimeout(context.Background(), 60*time.Second)
+		c, cancel := context.WithTimeout(context.Background(), 40*time.Second)
 		r, err := w.Client().NewEnvironment(c, &pb.NewEnvironmentRequest{WorkflowTemplate: "c03wf", Vars: map[string]string{}})
 		cancel()
 		if err != nil {
 			fails++
+			fmt.Printf("cycle %d: NewEnvironment: %.200s\n", i, err.Error())
+			if strings.Contains(err.Error(), "DeadlineExceeded") || strings.Contains(err.Error(), "deadline") {
+				// the core hangs: dump its goroutines into its log and keep the log
+				exec.Command("pkill", "-QUIT", "-f", "coreWorkingDir="+w.Dir()).Run()
+				time.Sleep(2 * time.Second)
+				if b, e := os.ReadFile(w.CoreLog()); e == nil {
+					os.WriteFile("/verif/.work/C03/hang-core.log", b, 0o644)
+				}
+				fmt.Println("core log with goroutine dump saved to /verif/.work/C03/hang-core.log")
+				break
+			}
 			continue
 		}
 		id := r.GetEnvironment().GetId()
